@@ -228,6 +228,7 @@ func c03(c *Ctx) {
 
 	// ---- index (F1) ----
 	c.checksumIndexGuard("index")
+	c.overrideMarking("index/override-marking")
 }
 
 func mapKeys(p *Prog, fn *ssa.Function, m IM) []string {
